@@ -93,6 +93,40 @@ def gen_def(rng, malformed_rate):
     return {"config": cfg, "objects": objs}
 
 
+def oracle_wf(d):
+    """The property's wording evaluated on the ABSTRACT definition (what was written, before any front end): every field
+    has a non-empty bit range inside the declared size, bool fields are exactly one bit and carry no conversion, no two
+    fields of one field set overlap unless the object allows it, a byte order is known (object or global) whenever a field
+    set is larger than 8 bits.  -> True (must not be rejected for layout reasons) / False (must be rejected)."""
+    dbo = d["config"].get("default_byte_order")
+    for o, _ in adef.walk(d["objects"]):
+        if o["kind"] == "register":
+            sets = [(o["size_bits"] or 0, o.get("fields") or [])]
+        elif o["kind"] == "command":
+            sets = [(o.get("size_bits_in") or 0, o.get("fields_in") or []), (o.get("size_bits_out") or 0, o.get("fields_out") or [])]
+        else:
+            continue
+        if any(sz > 8 for sz, _ in sets) and not (o.get("byte_order") or dbo):
+            return False
+        for sz, fields in sets:
+            rs = []
+            for f in fields:
+                s_, e_ = f["start"], (f["end"] if f["end"] is not None else f["start"] + 1)
+                if f["base"] == "bool" and e_ == s_:
+                    e_ = s_ + 1        # a single-address bool (start = end in every front end's MIR) denotes the one bit there
+                if f["base"] == "bool" and (e_ != s_ + 1 or f["conv"] is not None):
+                    return False
+                if not (0 <= s_ < e_ <= sz):
+                    return False
+                rs.append((s_, e_))
+            if not o.get("allow_bit_overlap"):
+                for a in range(len(rs)):
+                    for b in range(a + 1, len(rs)):
+                        if rs[a][0] < rs[b][1] and rs[b][0] < rs[a][1]:
+                            return False
+    return True
+
+
 def run(ctx):
     info = vlib.coq_gate(ctx)
     exe, err = gen_common.build_gen_runner(ctx)
@@ -137,6 +171,12 @@ def run(ctx):
                 diffs.append((cid, impl, "no-mir"))
             continue
         m = model[cid]
+        # the property's wording on the definition AS WRITTEN: a front end that distorts a field (seed C11-7: a manifest
+        # that spells `end` before `start`) changes the verdict although passes and model agree on the distorted MIR
+        if impl not in ("panic", "abort") and oracle_wf(defs[cid][0]) != (impl == "ok"):
+            diffs.append((cid, impl, "the property's wording on the definition as written: " +
+                          ("well-formed, must not be rejected for layout reasons" if impl != "ok" else "ill-formed, must be rejected")))
+            continue
         if impl != m:
             if gen_common.reworded_ok(r, m):
                 hist["reworded_message"] += 1
